@@ -3,10 +3,6 @@ package frugal
 // Added to the scratch copy of lib/go by /verif (never to /repo): the few
 // observations oracles need that the public API does not offer.
 
-import (
-	"sync/atomic"
-)
-
 // SimRegistryLen returns the number of registrations a client transport still
 // holds, or -1 if it cannot be observed right now.
 func SimRegistryLen(t FTransport) int {
@@ -34,7 +30,14 @@ func SimRegistryLen(t FTransport) int {
 
 // SimResetOpIDs makes op ids start from 1 again so that runs are repeatable
 // within one process.
-func SimResetOpIDs() { atomic.StoreUint64(&nextOpID, 0) }
+func SimResetOpIDs() { simSetCounter(&nextOpID, 0) }
+
+// SimSetOpIDBase moves the op id counter (between runs or before any task
+// exists: no concurrent access), so that a run can start just below a width
+// boundary a long-running process would reach.
+func SimSetOpIDBase(v uint64) { simSetCounter(&nextOpID, v) }
+
+func simSetCounter[T ~uint32 | ~uint64 | ~int32 | ~int64 | ~uint | ~int](p *T, v uint64) { *p = T(v) }
 
 // SimSetCorrelationID replaces the (random) correlation id generator.
 func SimSetCorrelationID(f func() string) { generateCorrelationID = f }
